@@ -229,4 +229,131 @@ theorem prun_seq (M : Machine) {tr : List (Nat × M.ε)} {v v' : Nat → M.σ}
       · have : ¬ j < k + 1 := by omega
         simp [upd, h1, h2, this]
 
+/-! ### the acceptor only accepts observable projections of executions -/
+
+theorem mem_foldl_dedup (l : List State) : ∀ (acc : List State) (x : State),
+    x ∈ l.foldl (fun acc s => if acc.contains s then acc else acc ++ [s]) acc ↔ x ∈ acc ∨ x ∈ l := by
+  induction l with
+  | nil => intro acc x; simp
+  | cons a l ih =>
+    intro acc x
+    simp only [List.foldl_cons]
+    rw [ih]
+    by_cases h : acc.contains a = true
+    · simp only [h, if_true, List.mem_cons]
+      have ha : a ∈ acc := by simpa using h
+      constructor
+      · rintro (h1 | h1)
+        · exact Or.inl h1
+        · exact Or.inr (Or.inr h1)
+      · rintro (h1 | h1 | h1)
+        · exact Or.inl h1
+        · exact Or.inl (h1 ▸ ha)
+        · exact Or.inr h1
+    · simp only [h, List.mem_append, List.mem_cons, List.mem_singleton]
+      simp only [Bool.false_eq_true, if_false, List.mem_append, List.mem_singleton]
+      constructor
+      · rintro ((h1 | h1) | h1)
+        · exact Or.inl h1
+        · exact Or.inr (Or.inl h1)
+        · exact Or.inr (Or.inr h1)
+      · rintro (h1 | h1 | h1)
+        · exact Or.inl (Or.inl h1)
+        · exact Or.inl (Or.inr h1)
+        · exact Or.inr h1
+
+theorem mem_dedup (l : List State) (x : State) : x ∈ dedup l ↔ x ∈ l := by
+  unfold dedup
+  rw [mem_foldl_dedup]
+  simp
+
+/-- `b` is reachable from `a` by silent events only -/
+def SilentReach (a b : State) : Prop := ∃ tr, (∀ e ∈ tr, e.silent = true) ∧ run a tr = some b
+
+theorem SilentReach.refl (a : State) : SilentReach a a := ⟨[], by simp, rfl⟩
+
+theorem SilentReach.snoc {a b c : State} {e : Ev} (h : SilentReach a b) (he : e.silent = true)
+    (hs : step b e = some c) : SilentReach a c := by
+  obtain ⟨tr, h1, h2⟩ := h
+  refine ⟨tr ++ [e], ?_, ?_⟩
+  · intro x hx
+    simp only [List.mem_append, List.mem_singleton] at hx
+    rcases hx with hx | hx
+    · exact h1 x hx
+    · exact hx ▸ he
+  · rw [run_append, h2]; simp [run, hs]
+
+theorem silentEvs_silent : ∀ e ∈ silentEvs, e.silent = true := by decide
+
+theorem closure_reach : ∀ (fuel : Nat) (l : List State) (s : State), s ∈ closure fuel l →
+    ∃ s0 ∈ l, SilentReach s0 s := by
+  intro fuel
+  induction fuel with
+  | zero => intro l s h; exact ⟨s, h, SilentReach.refl s⟩
+  | succ n ih =>
+    intro l s h
+    simp only [closure] at h
+    split at h
+    · exact ⟨s, h, SilentReach.refl s⟩
+    · obtain ⟨s1, h1, r1⟩ := ih _ s h
+      rw [mem_dedup] at h1
+      simp only [List.mem_append, List.mem_flatMap, List.mem_filterMap] at h1
+      rcases h1 with h1 | ⟨s2, h2, e, he, hs⟩
+      · exact ⟨s1, h1, r1⟩
+      · refine ⟨s2, h2, ?_⟩
+        obtain ⟨tr, t1, t2⟩ := r1
+        refine ⟨e :: tr, ?_, ?_⟩
+        · intro x hx
+          simp only [List.mem_cons] at hx
+          rcases hx with hx | hx
+          · exact hx ▸ silentEvs_silent e he
+          · exact t1 x hx
+        · simp [run, hs, t2]
+
+theorem obsStep_reach (cands : List State) (o : Obs) (f : State) (h : f ∈ obsStep cands o) :
+    ∃ s0 ∈ cands, ∃ m, SilentReach s0 m ∧ step m o.ev = some f := by
+  simp only [obsStep, mem_dedup, List.mem_filterMap] at h
+  obtain ⟨m, hm, hs⟩ := h
+  obtain ⟨s0, h0, r⟩ := closure_reach 8 cands m hm
+  refine ⟨s0, h0, m, r, ?_⟩
+  split at hs
+  · exact hs
+  · simp at hs
+
+/-- the observable part of an event list -/
+def observable (tr : List Ev) : List Ev := tr.filter (fun e => !e.silent)
+
+theorem observable_silent {tr : List Ev} (h : ∀ e ∈ tr, e.silent = true) : observable tr = [] := by
+  simp only [observable, List.filter_eq_nil_iff]
+  intro e he; simp [h e he]
+
+theorem acceptFrom_sound : ∀ (obs : List Obs) (cands : List State) (i : Nat) (finals : List State),
+    acceptFrom cands i obs = .ok finals → ∀ f ∈ finals, ∃ s0 ∈ cands, ∃ tr,
+      run s0 tr = some f ∧ observable tr = obs.map (·.ev) := by
+  intro obs
+  induction obs with
+  | nil =>
+    intro cands i finals h f hf
+    simp only [acceptFrom, Except.ok.injEq] at h
+    subst h
+    exact ⟨f, hf, [], rfl, rfl⟩
+  | cons o os ih =>
+    intro cands i finals h f hf
+    simp only [acceptFrom] at h
+    split at h
+    · simp at h
+    · next hsil =>
+      split at h
+      · simp at h
+      · next c' hc =>
+        obtain ⟨s1, h1, tr1, r1, p1⟩ := ih _ _ _ h f hf
+        obtain ⟨s0, h0, m, ⟨tr0, t0, r0⟩, hs⟩ := obsStep_reach cands o s1 h1
+        refine ⟨s0, h0, tr0 ++ o.ev :: tr1, ?_, ?_⟩
+        · rw [run_append, r0]; simp [run, hs, r1]
+        · have hns : (!o.ev.silent) = true := by simpa using hsil
+          simp only [observable, List.filter_append, List.filter_cons, hns, if_true, List.map_cons]
+          have := observable_silent t0
+          simp only [observable] at this p1
+          rw [this, p1]; rfl
+
 end RV.Conc
